@@ -81,6 +81,8 @@ type RpcCase struct {
 	Exact    bool     `json:"exact"`    // sizes are exact wire sizes in the case's codec
 	TruncK   int      `json:"trunck"`   // with Trunc > 0: number of complete client messages kept
 	Corrupt  bool     `json:"corrupt"`  // gRPC: the first frame claims to be compressed but holds garbage
+	ReqCT    string   `json:"reqct"`    // http: Content-Type of a request WITHOUT a body (the one message is the empty message)
+	ExactRep bool     `json:"exactrep"` // send sizes are exact wire sizes of the replies in the case's codec
 	WsClose  bool     `json:"wsclose"`  // ws: the client sends a close frame (1000) after its messages; else it waits for the server's
 	H2       bool     `json:"h2"`       // gRPC-web / HTTP / Twirp request arrives over HTTP/2 (gRPC always does)
 	Boundary int      `json:"boundary"` // >0: the first message is 8+Boundary-1 small records and the receive limit is exactly 8 records
@@ -169,6 +171,8 @@ func filler(n, salt int) string {
 	return string(b)
 }
 
+var trickyTails = []string{"", "\\", "", "\"", "\\\"", "", "{", "}", "\\\\", "", "\"}", "{\"", "\\n", "\u00e9", "}{", "\\\\\\"}
+
 func reqMsg(caseID, idx, size int) *dynamicpb.Message {
 	m := dynamicpb.NewMessage(reqDesc())
 	if size < 0 { // a truly empty message (zero bytes on the wire)
@@ -176,7 +180,12 @@ func reqMsg(caseID, idx, size int) *dynamicpb.Message {
 	}
 	m.Set(reqDesc().Fields().ByName("s"), protoreflect.ValueOfString(fmt.Sprintf("c%d-m%d", caseID, idx)))
 	if size > 0 {
-		m.Set(reqDesc().Fields().ByName("t"), protoreflect.ValueOfString(filler(size, idx)))
+		// the text ends in characters a JSON scanner has to get right: a trailing backslash, quotes, braces
+		t := filler(size, idx)
+		if tail := trickyTails[(caseID+idx+size)%len(trickyTails)]; size >= 3 && len(tail) <= size {
+			t = t[:size-len(tail)] + tail
+		}
+		m.Set(reqDesc().Fields().ByName("t"), protoreflect.ValueOfString(t))
 	}
 	return m
 }
@@ -190,6 +199,28 @@ func repMsg(caseID, idx, size int) *dynamicpb.Message {
 		m.Set(repDesc().Fields().ByName("pad"), protoreflect.ValueOfBytes([]byte(filler(size, idx))))
 	}
 	return m
+}
+
+// exactRepPad is the filler size that makes reply idx exactly want bytes on the wire in codec (or the smallest above).
+func exactRepPad(caseID, idx, want int, codec string) int {
+	pad := want - len(marshalMsg(codec, repMsg(caseID, idx, 0)))
+	if pad < 0 {
+		pad = 0
+	}
+	for i := 0; i < 8; i++ {
+		n := len(marshalMsg(codec, repMsg(caseID, idx, pad)))
+		if n == want || (n > want && pad == 0) {
+			break
+		}
+		pad += want - n
+		if pad < 0 {
+			pad = 0
+		}
+	}
+	for len(marshalMsg(codec, repMsg(caseID, idx, pad))) < want {
+		pad++
+	}
+	return pad
 }
 
 // recordsMsg is client message idx made of n small repeated records (after the id).
@@ -735,6 +766,11 @@ func (e *rpcEnv) buildRequest() *http.Request {
 		if c.Comp != "" {
 			req.Header.Set("Content-Encoding", c.Comp)
 		}
+		if c.ReqCT != "" { // a bodyless request that nevertheless names a content type (an upload client, a browser form)
+			req.Header.Set("Content-Type", c.ReqCT)
+			req.Body = http.NoBody
+			req.ContentLength = 0
+		}
 		if c.Proto == "twirp" {
 			req.Header.Set("Twirp-Version", "v5.12.0")
 		}
@@ -1163,6 +1199,20 @@ func runRpcCase(c RpcCase) RpcEv {
 	}
 	if ev.C.Sched == nil {
 		ev.C.Sched = []int{}
+	}
+	if c.ExactRep {
+		k := 0
+		sc := append([]Step{}, c.Script...)
+		for i := range sc {
+			if sc[i].Op == "send" {
+				k++
+				if sc[i].Size > 0 {
+					sc[i].Size = exactRepPad(c.ID, k, sc[i].Size, c.Codec)
+				}
+			}
+		}
+		c.Script = sc
+		ev.C.Script = sc
 	}
 	if c.Boundary > 0 {
 		c.MaxRecv = len(marshalMsg(c.Codec, recordsMsg(c.ID, 1, 8)))
